@@ -248,9 +248,10 @@ DESIGN = {
              ("MC_Snap", "MC_Snap_frame.cfg", ("thorough",), "10g")],
     # the same machine with the CODE's own spike removal / splitting / assembly (Dedupe, SplitRing, Assemble transcriptions, which
     # the real functions are replayed against): the properties hold for the algorithm the code executes, not only for the reference
-    "snapcode": [("MC_Snap", "MC_Snap_live_code.cfg", ("quick", "thorough"), "3g"), ("MC_Snap", "MC_Snap_tri_code.cfg", ("thorough",), "10g")],
+    "snapcode": [("MC_Snap", "MC_Snap_live_code.cfg", ("quick", "thorough"), "3g"), ("MC_Snap", "MC_Snap_tri_code.cfg", ("thorough",), "10g"),
+                 ("MC_Snap", "MC_Snap_frame_code.cfg", ("thorough",), "10g")],       # 3.98 M states, 4 min
     # every quadrilateral (incl. bow-ties, which must be left alone or rejected) on the 5x5 lattice: 8.13 M states, 2 min 20 s at 8 workers
-    "snapquad": [("MC_Snap", "MC_Snap_quad.cfg", ("thorough",), "10g")],
+    "snapquad": [("MC_Snap", "MC_Snap_quad.cfg", ("thorough",), "10g"), ("MC_Snap", "MC_Snap_quad_code.cfg", ("thorough",), "10g")],
     "rounding": [("MC_SnapRounding", "MC_SnapRounding.cfg", ("thorough",), "10g")],
     "descent": [("Descent", "MC_Descent.cfg", ("quick", "thorough"), "6g")],
     "levels": [("LevelArith", "MC_LevelArith.cfg", ("quick", "thorough"), "3g")],
